@@ -177,26 +177,35 @@ func (w hWalletFull) Accounts(_ context.Context) <-chan e2wtypes.Account {
 type accountsTable struct {
 	byIndex map[phase0.ValidatorIndex]*hAccount
 	err     error
+	// activeFrom: activation epoch of validators that are not active from the start (absent: always active)
+	activeFrom map[phase0.ValidatorIndex]phase0.Epoch
 }
 
-func (t *accountsTable) ValidatingAccountsForEpoch(_ context.Context, _ phase0.Epoch) (map[phase0.ValidatorIndex]e2wtypes.Account, error) {
+func (t *accountsTable) active(i phase0.ValidatorIndex, e phase0.Epoch) bool {
+	from, ok := t.activeFrom[i]
+	return !ok || e >= from
+}
+
+func (t *accountsTable) ValidatingAccountsForEpoch(_ context.Context, e phase0.Epoch) (map[phase0.ValidatorIndex]e2wtypes.Account, error) {
 	if t.err != nil {
 		return nil, t.err
 	}
 	out := map[phase0.ValidatorIndex]e2wtypes.Account{}
 	for i, a := range t.byIndex {
-		out[i] = a
+		if t.active(i, e) {
+			out[i] = a
+		}
 	}
 	return out, nil
 }
 
-func (t *accountsTable) ValidatingAccountsForEpochByIndex(_ context.Context, _ phase0.Epoch, idx []phase0.ValidatorIndex) (map[phase0.ValidatorIndex]e2wtypes.Account, error) {
+func (t *accountsTable) ValidatingAccountsForEpochByIndex(_ context.Context, e phase0.Epoch, idx []phase0.ValidatorIndex) (map[phase0.ValidatorIndex]e2wtypes.Account, error) {
 	if t.err != nil {
 		return nil, t.err
 	}
 	out := map[phase0.ValidatorIndex]e2wtypes.Account{}
 	for _, i := range idx {
-		if a, ok := t.byIndex[i]; ok {
+		if a, ok := t.byIndex[i]; ok && t.active(i, e) {
 			out[i] = a
 		}
 	}
